@@ -141,12 +141,31 @@ RULE = ("histories on 21 item types (plus 9 built-in items x 14 primitive elemen
         "at every debug() the executor also compares, with std's values, ZeroOne::{ZERO, ONE}, MinMax::{MIN, MAX} and Default of "
         "the element type as the items see them, every field of Default::default() of the item (componentwise for the "
         "Combinators) and of new(1) / from(1) (the len of a fresh SumAdd leaf included); a difference makes the observation "
-        "unreadable")
+        "unreadable; (i) queries that fail: a user item CkSum (Sum<i64> whose merge is checked_add().expect, same tokens and "
+        "Coq terms as the kind sum) over arrays with 2-4 values next to +-i64::MAX among small ones, chosen so that every tree "
+        "node fits i64 but some ranges do not (sets keep that invariant); a query over such a range may panic, the panic is "
+        "caught and the very next operations are ordinary queries on the same tree, compared with the plain array as usual "
+        "(history continues after a caught panic: a refused query - chunk p on a range some contiguous part of which does not "
+        "fit i64 - is taken out of the history given to Coq; any other panic, and an answer where the total does not fit, "
+        "stays in and fails); (j) pairs with a user half: Combinator<MinAdd<i64>, Raise> and Combinator<MaxAdd<i64>, "
+        "Combinator<MinAdd<i64>, Raise>> where Raise is a lawful user item over the same modifier type (merge = max, modify m: "
+        "v = max(v, m), pending modifiers composed by max, so they do not cancel when the adds do), sizes 2-17, range "
+        "modifications on whole inner nodes followed 3 times out of 5 by the cancelling one (+m then -m) and 0 modifiers on "
+        "the same ranges, then sets and queries below that node, tagged input items; the executor runs the pair beside its "
+        "two halves in separate trees and beside a plain array of items (modify = T::modify elementwise, query = left fold of "
+        "T::merge) and compares every answer by value with both - a difference prints the failure token X (an observation no "
+        "model value equals and no specification accepts) - while the first half's fields go to Coq as a minadd / maxadd "
+        "history")
 TRUSTED = ["executor harness/crates/c01 (drives rlib_segtree::Segtree with the listed item types, defines the three user items "
            "and the element types Keyed and Cat, "
            "prints every returned item with all its fields, the debug() string and the arguments each search closure received; "
            "its self-checks - the comparison of the constants of rlib_num_traits with std's included - only ever turn an "
-           "observation into an unreadable one)",
+           "observation into an unreadable one; it also defines the user items CkSum and Raise, and for the pair kinds craise / "
+           "craise3 the side-by-side trees, the plain array of items and their comparison by value, whose failure token X the "
+           "plugin maps to an observation nothing accepts)",
+           "checks/c01.py refused_asks: for CkSum the plugin, not Coq, decides which caught query panics were legitimate (some "
+           "contiguous part of the range has a sum outside i64, computed on its own plain array) and removes exactly those "
+           "queries from the history before it is printed as a Coq term",
            "checks/c01.py (history generator, Coq term printer, parser of the derived-Debug rendering: the rendering is "
            "re-generated from the parsed numbers and compared with the string the implementation produced)"]
 ASSUMPTIONS = ["i64 values are modelled as unbounded Z: generated values keep every intermediate below 2^40, or sit next to one end "
@@ -160,6 +179,10 @@ ASSUMPTIONS = ["i64 values are modelled as unbounded Z: generated values keep ev
                "infinities are not generated",
                "a search interrupted by a panicking predicate is not modelled itself: the executor repeats it, and the model "
                "(pushes are idempotent, searches leave the array alone) predicts the repeated search and everything after it",
+               "CkSum: the model has no refused query; a query the implementation refuses (caught panic) on a range with a part "
+               "that does not fit i64 is not an operation of the modelled history (which association of merges overflows first is "
+               "left open), everything after it is; Raise and the pair-level comparison (craise / craise3) are not modelled in Coq "
+               "beyond c01_combinator_side_by_side: only the first half's observation is",
                "the model branches on the shape (leaf / inner node) where the code tests vl == vr; both are built over the same ranges",
                "lower_bound(l, _) with l >= n (out-of-bounds indexing inside the code, not asserted) is outside the model and never generated"]
 
@@ -185,7 +208,13 @@ MD_KINDS = ("minadd", "maxadd", "sumadd", "comb2", "comb3", "flip", "minaddkey",
 LEN_KINDS = ("sumadd", "comb3")
 IDEMPOTENT_KINDS = ("min", "max", "minkey", "maxkey", "minf", "maxf")   # merge(v, v) = v: new_raw(n, v) is new(n, v)
 # the same model kind run on another instantiation of the executor (case key "exe")
-EXE_OF = {"minadd32": "minadd", "sumaddu64": "sumadd", "minu64": "min", "maxu64": "max"}
+EXE_OF = {"minadd32": "minadd", "sumaddu64": "sumadd", "minu64": "min", "maxu64": "max",
+          "cksum": "sum", "craise": "minadd", "craise3": "maxadd"}
+# cksum: a user item like Sum<i64> whose merge is checked_add().expect(): queries may panic (caught), see refused_asks.
+# craise / craise3: Combinator<MinAdd, Raise> / Combinator<MaxAdd, Combinator<MinAdd, Raise>> (Raise: user chmax item over
+# the same modifier type) run beside their components in separate trees and a plain array; the observation is the
+# first half's (= the minadd / maxadd line), a disagreement prints `X ...`.  These cases never leave their executor.
+STICKY_EXE = ("cksum", "craise", "craise3")
 # Min<u64> / Max<u64>: the executor maps the i64 input x to the u64 x + 2^63 (order isomorphism; u64::MAX <-> i64::MAX,
 # 0 <-> i64::MIN: the Default values correspond) and prints items back the same way; debug() shows the raw u64
 SHIFTED_EXE = {"minu64": 2 ** 63, "maxu64": 2 ** 63}
@@ -554,6 +583,8 @@ def coq_out(kind, chunk, shift=0, flt=False):
     if chunk == "p":
         return "OPanic"
     tag, _, rest = chunk.partition(" ")
+    if tag == "X":
+        return "OBound None []"      # failed executor self-check (pair kinds): no query / update / construction ever gives this
     if tag == "i":
         try:
             return "OItem %s" % parse_enc(kind, rest)
@@ -574,16 +605,75 @@ def coq_out(kind, chunk, shift=0, flt=False):
     raise ValueError("bad chunk %r" % chunk)
 
 
+def fits64(x):
+    return I64_MIN <= x <= I64_MAX
+
+
+def ck_nodes_fit(a):
+    """every node of the implicit tree over the array a holds a sum that fits i64"""
+    pre = [0]
+    for x in a:
+        pre.append(pre[-1] + x)
+    return all(fits64(x) for x in a) and all(fits64(pre[vr + 1] - pre[vl]) for vl, vr, _ in nodes_of(len(a)))
+
+
+def ck_may_refuse(a, l, r):
+    """some contiguous part of a[l..r] has a sum outside i64: a checked merge, in whatever association, may panic"""
+    pre = [0]
+    for x in a[l:r + 1]:
+        pre.append(pre[-1] + x)
+    return any(not fits64(pre[j] - pre[i]) for i in range(len(pre)) for j in range(i + 1, len(pre)))
+
+
+def ck_arrays(ops):
+    """cksum: the plain array before each operation (None: no tree yet), and whether every history state is one in
+    which all tree nodes fit i64 (constructions and sets then cannot panic)"""
+    a, before, ok = None, [], True
+    for o in ops:
+        before.append(None if a is None else list(a))
+        t = o["op"]
+        if t == "new" and o["n"] >= 1:
+            a = [o["v"]] * o["n"]
+        elif t in ("slice", "iter") and o["xs"]:
+            a = list(o["xs"])
+        elif t == "set" and a is not None and o["i"] < len(a):
+            a[o["i"]] = o["v"]
+        if a is not None and not ck_nodes_fit(a):
+            ok = False
+    return before, ok
+
+
+def refused_asks(c, chunks):
+    """cksum: indices of the queries the implementation refused (caught panic, chunk `p`) and was entitled to refuse:
+    some contiguous part of the range does not fit i64.  They are no operations of the history the model sees; a panic on
+    any other query, or an answer to a query whose total does not fit, stays in and fails."""
+    if c.get("exe") != "cksum" or len(chunks) != len(c["ops"]):
+        return set()
+    before, _ = ck_arrays(c["ops"])
+    out = set()
+    for i, (o, ch) in enumerate(zip(c["ops"], chunks)):
+        a = before[i]
+        if o["op"] == "ask" and ch == "p" and a is not None and o["l"] <= o["r"] < len(a) and ck_may_refuse(a, o["l"], o["r"]):
+            out.add(i)
+    return out
+
+
 def coq_term(c, obs, profile):
     kind = c["kind"]
+    ops = c["ops"]
     if obs == "P":
         outs = []
     else:
         shift = SHIFTED_EXE.get(c.get("exe"), 0)
         w = width_exe(c.get("exe"))
         flt = bool(w) and w[0] in WFLOAT
-        outs = [coq_out(kind, ch, shift, flt) for ch in obs.split("\t")] if obs != "" else []
-    return "(%s ([%s], [%s]))" % (CTOR[kind], "; ".join(coq_op(kind, o) for o in c["ops"]), "; ".join(outs))
+        chunks = obs.split("\t") if obs != "" else []
+        skip = refused_asks(c, chunks)
+        if skip:
+            ops = [o for i, o in enumerate(ops) if i not in skip]
+            chunks = [ch for i, ch in enumerate(chunks) if i not in skip]
+        outs = [coq_out(kind, ch, shift, flt) for ch in chunks]
+    return "(%s ([%s], [%s]))" % (CTOR[kind], "; ".join(coq_op(kind, o) for o in ops), "; ".join(outs))
 
 
 # ----------------------------------------------------------------------------- generation
@@ -1436,6 +1526,100 @@ def big_cases(rng, tier):
     return [gen_big(rng, tier, BIG_N[i % len(BIG_N)]) for i in range(52)]
 
 
+CK_DEMO = [1, 7, 2, 3, I64_MAX - 10, 0, 20, -(I64_MAX - 10)]
+
+
+def ck_array(rng):
+    """values next to +-i64::MAX among small ones such that every tree node fits i64 but some range does not"""
+    for _ in range(60):
+        n = rng.choice([4, 5, 6, 7, 8, 8, 9, 11, 13, 16, 17])
+        a = [rng.range(-9, 20) for _ in range(n)]
+        for _ in range(rng.range(2, 5)):
+            a[rng.below(n)] = rng.choice([1, 1, -1]) * (I64_MAX - rng.below(40))
+        if ck_nodes_fit(a) and ck_may_refuse(a, 0, n - 1):
+            return a
+    return list(CK_DEMO)
+
+
+def gen_cksum(rng, tier):
+    """queries a checked sum refuses (caught panic) followed by queries it must answer like the plain array"""
+    a = ck_array(rng)
+    n = len(a)
+    nodes = nodes_of(n)
+    ops = [{"op": rng.choice(["slice", "slice", "iter"]), "xs": list(a)}]
+    bad = [(l, r) for l in range(n) for r in range(l + 2, n) if ck_may_refuse(a, l, r)]
+    for _ in range(rng.range(6, 18)):
+        k = rng.below(10)
+        if k < 4 and bad:
+            l, r = rng.choice(bad)
+            ops.append({"op": "ask", "l": l, "r": r})
+            for _ in range(rng.range(1, 2)):           # the very next query shows what the refused one left behind
+                l2, r2 = pick_range(rng, n, nodes)
+                ops.append({"op": "ask", "l": l2, "r": r2})
+        elif k < 6:
+            i = rng.below(n)
+            v = rng.range(-9, 20) if rng.chance(2, 3) else rng.choice([1, -1]) * (I64_MAX - rng.below(40))
+            b = list(a)
+            b[i] = v
+            if ck_nodes_fit(b):
+                a = b
+                ops.append({"op": "set", "i": i, "v": v})
+                bad = [(l, r) for l in range(n) for r in range(l + 2, n) if ck_may_refuse(a, l, r)]
+        else:
+            l, r = pick_range(rng, n, nodes)
+            ops.append({"op": "ask", "l": l, "r": r})
+    return {"kind": "sum", "exe": "cksum", "ops": ops}
+
+
+def gen_craise(rng, tier):
+    """Combinator<MinAdd | MaxAdd first, ... user item Raise>: range adds that cancel on an inner node (+m then -m,
+    0 modifiers) while the other half still has something pending there, then queries / sets below that node"""
+    exe = rng.choice(["craise", "craise3"])
+    kind = EXE_OF[exe]
+    n = rng.choice([2, 2, 3, 4, 4, 5, 6, 7, 8, 8, 9, 12, 15, 16, 17])
+    nodes = nodes_of(n)
+
+    def item():
+        v = rng.range(-20, 20)
+        return [v, rng.range(-3, 3)] if rng.chance(1, 6) else v
+
+    ops = [{"op": "new", "n": n, "v": item()} if rng.chance(1, 3) else
+           {"op": rng.choice(["slice", "iter"]), "xs": [item() for _ in range(n)]}]
+    for _ in range(rng.range(3, 12)):
+        k = rng.below(10)
+        if k < 5:
+            if rng.chance(2, 3):
+                vl, vr, _m = rng.choice(nodes)
+                l, r = rng.choice([(vl, vr), (vl, vr), (0, n - 1), (vl, min(vr + 1, n - 1))])
+            else:
+                l, r = pick_range(rng, n, nodes)
+            m = rng.choice([0, 0, 1, 5, -5, 7, -2, rng.range(-30, 30)])
+            ops.append({"op": "mod", "l": l, "r": r, "m": m})
+            if rng.chance(3, 5):
+                ops.append({"op": "mod", "l": l, "r": r, "m": -m})
+            for _ in range(rng.range(0, 2)):
+                if rng.chance(1, 3):
+                    ops.append({"op": "set", "i": rng.range(l, r), "v": item()})
+                else:
+                    l2 = rng.range(l, r)
+                    ops.append({"op": "ask", "l": l2, "r": rng.range(l2, r) if rng.chance(2, 3) else rng.range(l2, n - 1)})
+        elif k < 6:
+            ops.append({"op": "set", "i": rng.below(n), "v": item()})
+        else:
+            l, r = pick_range(rng, n, nodes)
+            ops.append({"op": "ask", "l": l, "r": r})
+    ops.append({"op": "ask", "l": 0, "r": n - 1})
+    for i in range(min(n, 4)):
+        ops.append({"op": "ask", "l": i, "r": i})
+    return {"kind": kind, "exe": exe, "ops": ops}
+
+
+def sticky_cases(rng, tier):
+    r8, r9 = rng.fork("cksum"), rng.fork("craise")
+    nck, ncr = (60, 120) if tier == "quick" else (1500, 3000)
+    return interleave([[gen_cksum(r8, tier) for _ in range(nck)], [gen_craise(r9, tier) for _ in range(ncr)]])
+
+
 def generate(rng, tier):
     count, nflip, ntag, nnew, nties = (1400, 120, 200, 260, 130) if tier == "quick" else (30000, 3000, 5000, 9000, 4000)
     r1, r2, r3 = rng.fork("hist"), rng.fork("flip"), rng.fork("tagged")
@@ -1447,7 +1631,7 @@ def generate(rng, tier):
                        [gen_tagged(r3, tier, 3) for _ in range(ntag)],
                        [gen_history(r4, tier, (2, 3, 3, 2), 40, NEW_KINDS) for _ in range(nnew)],
                        [gen_ties(r5, tier, 3) for _ in range(nties)],
-                       big_cases(r6, tier)])
+                       big_cases(r6, tier), sticky_cases(rng, tier)])
 
 
 # ----------------------------------------------------------------------------- evidence helpers
@@ -1584,6 +1768,11 @@ def shrink(c):
             out.append(dict(c, ops=ops[:i] + [{k_: v_ for k_, v_ in o.items() if k_ != "raw"}] + ops[i + 1:]))
         if o["op"] == "mod" and kind not in UNIT_MOD_KINDS + ("concat", "combcat", "affine") and o["m"] not in (0, 1):
             out.append(dict(c, ops=ops[:i] + [dict(o, m=1)] + ops[i + 1:]))
+    if c.get("exe") in STICKY_EXE:
+        # stay on the executor; cksum: only histories in which every tree node still fits i64 (nothing but queries may panic)
+        out = [x for x in out if x.get("exe") == c["exe"] and x["ops"] and x["ops"][0]["op"] in ("new", "slice", "iter")]
+        if c["exe"] == "cksum":
+            out = [x for x in out if ck_arrays(x["ops"])[1]]
     w = width_exe(c.get("exe"))
     if w:
         # stay on the element type (the i64 kind may not even hold the numbers) and inside what the type holds exactly
